@@ -198,4 +198,57 @@ Proof.
     + intros x Hx. cbn in Hx. rewrite nodes_wset_neq by (intros ->; tauto). rewrite Frk by tauto. rewrite Fo, Fp. reflexivity.
 Qed.
 
+(* ---------- remove_sub_element ---------- *)
+Lemma Pres_raw_remove self sub m : Pres (raw_remove_sub_element T self sub m).
+Proof.
+  intros w r w' H C. unfold raw_remove_sub_element in H.
+  assert (F : Core w /\ (NoOrphan w -> NoOrphan w)) by auto.
+  wrun_ro H ltac:(exact F).
+  match goal with Hi : index_of (citem_is sub) (n_content ?n) = Some ?pos |- _ =>
+    rename Hi into Hidx; rename n into ns; rename pos into ps end.
+  assert (Hl : lists w self sub) by (exists ns; split; auto; eapply index_of_citem_in; eauto).
+  pose proof (c_up _ C _ _ Hl) as Hps.
+  assert (Hsa : allocated w sub) by (destruct Hps as (x & ? & _); eexists; eauto).
+  set (f := N.to_nat (w_next w)) in *.
+  pose proof (enough_top _ _ C Hsa) as He. fold f in He.
+  wstepn H u Er.
+  2:{ destruct (remove_internal_spec w C f sub _ _ Hsa He w _ _ (fun x _ => eq_refl) Er) as ([=] & _). }
+  destruct (remove_internal_spec w C f sub _ _ Hsa He w _ _ (fun x _ => eq_refl) Er) as (_ & N1 & R1 & Cl & Fr).
+  apply modify_node_wset in H as (nq & Hnq & -> & ->).
+  assert (HselfL : ~ In self (subl f w sub)) by (apply subl_not_parent; auto).
+  assert (nq = ns) as -> by (rewrite Fr in Hnq by auto; congruence).
+  set (w' := wset _ self _).
+  pose proof (index_of_citem _ _ _ Hidx) as Hnth.
+  assert (HL : forall x, In x (subl f w sub) -> allocated w x /\ skel w' x = Some (PNone, [])).
+  { intros x Hx. split; [eapply subl_alloc; eauto|]. unfold w'. rewrite skel_wset_neq by (intros ->; auto). auto. }
+  assert (Ho : forall x, ~ In x (subl f w sub) -> x <> self -> skel w' x = skel w x).
+  { intros x Hx Hxs. unfold w'. rewrite skel_wset_neq by auto. unfold skel. rewrite Fr by auto. reflexivity. }
+  assert (Hi : skel w self = Some (n_parent ns, kids ns)) by (apply skel_some; auto).
+  assert (Hi' : skel w' self = Some (n_parent ns, elems (remove_at (n_content ns) ps))).
+  { unfold w'. rewrite skel_wset_eq. reflexivity. }
+  assert (Hks : forall x, In x (elems (remove_at (n_content ns) ps)) <-> In x (kids ns) /\ x <> sub).
+  { intros x. apply elems_remove_elem; auto. eapply c_nodup; eauto. }
+  assert (Hnd : NoDup (elems (remove_at (n_content ns) ps))).
+  { apply elems_remove_nodup. eapply c_nodup; eauto. }
+  assert (Hup : forall c, In c (subl f w sub) -> c <> sub -> exists p, In p (subl f w sub) /\ par w c p).
+  { intros c Hc Hne. destruct (subl_up _ _ _ _ Hc Hne) as (p & Hp & Hlp). exists p. split; auto. apply C. auto. }
+  assert (Hdown : forall p c, In p (subl f w sub) -> lists w p c -> In c (subl f w sub)).
+  { intros p c. apply subl_closed; auto. }
+  assert (Hn' : w_next w' = w_next w) by (unfold w'; rewrite next_wset; auto).
+  assert (Hr' : roots w' = roots w) by (unfold w'; rewrite roots_wset; auto).
+  split.
+  - eapply (core_clear w w' self sub); eauto; apply subl_self.
+  - intros O. apply NoOrphan_OrphSub. apply NoOrphan_OrphSub in O.
+    eapply (orphsub_clear w w' self sub); eauto; apply subl_self.
+Qed.
+Hint Resolve Pres_raw_remove : pres.
+
+Lemma Pres_e_remove h sub : Pres (e_remove_sub_element T h sub).
+Proof. unfold e_remove_sub_element. pres_tac. Qed.
+Hint Resolve Pres_e_remove : pres.
+Lemma Pres_e_remove_kind h name : Pres (e_remove_sub_element_kind T h name).
+Proof. unfold e_remove_sub_element_kind. pres_tac. Qed.
+
 End Remove.
+
+#[export] Hint Resolve Pres_raw_remove Pres_e_remove Pres_e_remove_kind : pres.
